@@ -40,7 +40,8 @@ fn g_strategy() -> impl Strategy<Value = G> {
         3 => (0u32..2_000_000, any::<bool>(), 0u8..4).prop_map(|(milli_kelvin, big, which)| G::Temperature { milli_kelvin, big, which }),
         6 => (0u8..MATH.len() as u8, any::<u32>()).prop_map(|(pair, t)| G::Math { pair, t }),
         3 => (0u8..3, -250_000_000_000i64..250_000_000_000).prop_map(|(res, n)| G::Unix { res, n }),
-        3 => (-62_000_000_000i64..250_000_000_000, 0u32..1_000_000_000, 0u8..3).prop_map(|(secs, nanos, which)| G::Instant { secs, nanos, which }),
+        4 => (prop_oneof![-62_000_000_000i64..250_000_000_000, -3_000_000_000i64..3_000_000_000], 0u32..1_000_000_000, 0u8..4)
+            .prop_map(|(secs, nanos, which)| G::Instant { secs, nanos, which }),
         4 => (idx(), proptest::collection::vec(idx(), 1..4), 1u32..100_000_000, any::<bool>())
             .prop_map(|(first, others, mag, neg)| G::Mixed { first, others, mag, neg }),
         2 => (0u8..4, 1u32..100_000_000).prop_map(|(which, mag)| G::FixedMixed { which, mag }),
@@ -172,7 +173,7 @@ fn check(g: &G, st: &mut Stats) -> CheckResult {
         G::Unix { res, n } => {
             // The library goes through microseconds held in an f64. While the microsecond count
             // is below 2^53 it is exact, so whole seconds / milliseconds must round-trip exactly
-            // (microseconds: one unit, because of the final `floor`); beyond 2^53 µs (dates more
+            // (and so must microseconds); beyond 2^53 µs (dates more
             // than ~285 years from 1970) the intermediate is only accurate to its own ulp
             // (16-64 µs) and the final `floor` may land one unit lower: one unit is tolerated.
             let (suffix, n, per_unit_us) = match res % 3 {
@@ -181,7 +182,7 @@ fn check(g: &G, st: &mut Stats) -> CheckResult {
                 _ => ("µs", (n % 9_000_000_000) * 1_000_000 + (n % 999_983), 1i128),
             };
             let exact_range = (n as i128 * per_unit_us).abs() < (1i128 << 53);
-            let tol = if exact_range && per_unit_us > 1 { 0.0 } else { 1.0 };
+            let tol = if exact_range { 0.0 } else { 1.0 };
             st.label(if exact_range { "unixtime:µs-representable" } else { "unixtime:beyond-2^53-µs" });
             let code = format!("let xx_r = unixtime_{suffix}(from_unixtime_{suffix}({n}))");
             let ctx = run_code(&code)?;
@@ -198,8 +199,17 @@ fn check(g: &G, st: &mut Stats) -> CheckResult {
             st.nontrivial_with_sample(hash_str(&code), || json!({"code": code, "result": r}));
         }
         G::Instant { secs, nanos, which } => {
-            let text = civil(*secs, *nanos);
-            let (code, tol, label) = match which % 3 {
+            // variant 3: an instant with whole microseconds, through the microsecond functions
+            let nanos = if which % 4 == 3 { (*nanos / 1000) * 1000 } else { *nanos };
+            let text = civil(*secs, nanos);
+            let (code, tol, label) = match which % 4 {
+                3 => (
+                    format!("let xx_t = datetime(\"{text}\")\nlet xx_r = (from_unixtime_µs(unixtime_µs(xx_t)) - xx_t) / s"),
+                    // the microsecond count is an integer held in an f64: exact below 2^53 µs
+                    // (year 1684-2255), accurate to its ulp (at most 64 µs in range) beyond
+                    if (*secs as i128 * 1_000_000).abs() < (1i128 << 53) { 0.0 } else { 1e-4 },
+                    "from_unixtime_µs(unixtime_µs(t)), whole µs",
+                ),
                 0 => (
                     format!("let xx_t = datetime(\"{text}\")\nlet xx_r = (from_unixtime(unixtime(xx_t)) - xx_t) / s"),
                     // unixtime has µs resolution (floor) and goes through f64 seconds
